@@ -1,10 +1,410 @@
 /-
-  MdModel.Index — placeholder (model not written yet).
+  MdModel.Index — model of how `minidump_processor::process_minidump` indexes a dump into a
+  `ProcessState` (engine `index`, property C14):
+    * `MinidumpInfo::new`                      (minidump-processor/src/processor.rs:495-632)
+    * `MinidumpInfo::get_exception_details`    (processor.rs:635-713: reason, address, context)
+    * `MinidumpInfo::into_process_state`       (processor.rs:1020-1226: one `CallStack` per thread,
+      dump-writer thread skipped, requesting thread, context preference, thread names, process id
+      and create time, unloaded-module offsets per frame)
+    * the stream readers as far as they decide what the processor sees: thread names (last readable
+      duplicate wins, minidump.rs:1402-1437), Breakpad info validity bits (4189-4218), misc-info
+      flag-guarded fields (3455-3560, 4058-4063), module list (bad sizes dropped, 1541-1569),
+      unloaded module list (bad size ⇒ whole stream fails, 1647-1671), `/proc/<pid>/status`
+      (`Pid` entry, process_state.rs:113-123).
+  The crash reason and address live in `MdModel.Reason`; the range tables in `MdModel.RangeMap` (C08).
+
+  A dump is described abstractly (`Dump`); contexts are abstracted to "readable with instruction
+  pointer ip" or "unreadable" (what `MinidumpContext::read(..).ok()` yields), which is exactly the
+  information `into_process_state` uses before stack walking. The engine builds real dump bytes
+  from the same description; threads get no stack memory, so the walk yields the context frame only.
 -/
 import MdModel.Prelude
+import MdModel.RangeMap
+import MdModel.Reason
 namespace MdModel.Index
+open MdModel
+open MdModel.Reason (Exc Reason Os Cpu)
 
-/-- line-protocol entry point of this model (engine(s): index) -/
-def handle (_engine : String) (_args : List String) : String := "bad-op"
+/-- One `MINIDUMP_THREAD`: its id and what `thread.context(..)` yields on a CPU that has a
+    context format (`some ip` = readable context with that instruction pointer). -/
+structure Thread where
+  id : Nat
+  ctx : Option Nat
+  deriving Repr, DecidableEq
+
+/-- `MINIDUMP_BREAKPAD_INFO` -/
+structure Breakpad where
+  validity : Nat
+  dumpId : Nat
+  reqId : Nat
+  deriving Repr
+
+/-- `MINIDUMP_MISC_INFO` (the fields C14 is about; any version of the struct) -/
+structure Misc where
+  flags : Nat
+  pid : Nat
+  ctime : Nat
+  deriving Repr
+
+/-- a (loaded or unloaded) module record: base, size, name -/
+structure Mod where
+  base : Nat
+  size : Nat
+  name : String
+  deriving Repr, DecidableEq
+
+/-- The abstract dump. `none` for a stream = absent (or unreadable as a whole). -/
+structure Dump where
+  platformId : Nat
+  arch : Nat
+  timestamp : Nat
+  /-- thread list stream; `none` ⇒ `ProcessError::MissingThreadList` -/
+  threads : Option (List Thread)
+  /-- thread-names stream entries in stream order; name `none` = unreadable string -/
+  names : List (Nat × Option String)
+  breakpad : Option Breakpad
+  /-- exception stream and its context -/
+  exc : Option (Exc × Option Nat)
+  misc : Option Misc
+  /-- `/proc/<pid>/status` as key/value lines -/
+  status : Option (List (String × String))
+  modules : List Mod
+  unloaded : List Mod
+  deriving Repr
+
+inductive Info where
+  | ok | missingContext | dumpThreadSkipped
+  deriving DecidableEq, Repr
+
+/-- One `CallStack` as far as indexing is concerned. -/
+structure Stack where
+  id : Nat
+  name : Option String
+  info : Info
+  /-- instruction of the context frame -/
+  frame0 : Option Nat
+  /-- (unloaded module name, offset) of the context frame, in `by_addr` order -/
+  unloaded : List (String × Nat)
+  deriving Repr, DecidableEq
+
+structure State where
+  stacks : List Stack
+  requesting : Option Nat
+  /-- `exception_info`: reason and crash address -/
+  exc : Option (Reason × Nat)
+  pid : Option Nat
+  ctime : Option Nat
+  time : Nat
+  modules : List Mod
+  unloaded : List Mod
+  deriving Repr
+
+/-! ### stream readers -/
+
+/-- `MinidumpThreadNames::read` + `get_name`: a `BTreeMap` filled in stream order, unreadable
+    strings skipped ⇒ the last *readable* entry with this id. -/
+def nameOf (names : List (Nat × Option String)) (id : Nat) : Option String :=
+  names.foldl (fun acc e => if e.1 = id then (match e.2 with | some n => some n | none => acc) else acc) none
+
+/-- `MinidumpBreakpadInfo::read`: `dump_thread_id` guarded by validity bit 0 -/
+def dumpThreadId (b : Option Breakpad) : Option Nat :=
+  match b with
+  | some b => if b.validity % 2 = 1 then some b.dumpId else none
+  | none => none
+
+/-- `requesting_thread_id` guarded by validity bit 1 -/
+def bpRequestingId (b : Option Breakpad) : Option Nat :=
+  match b with
+  | some b => if (b.validity / 2) % 2 = 1 then some b.reqId else none
+  | none => none
+
+/-- `crashing_thread_id.or(self.requesting_thread_id)`: the exception stream's thread id whenever
+    an exception stream exists, else Breakpad's requesting thread id. -/
+def requestingId (d : Dump) : Option Nat :=
+  match d.exc with
+  | some (e, _) => some e.tid
+  | none => bpRequestingId d.breakpad
+
+/-- what `MinidumpContext::read(..).ok()` yields for a context on this dump's architecture -/
+def readCtx (d : Dump) (c : Option Nat) : Option Nat :=
+  if Reason.archHasContext d.arch then c else none
+
+/-- `exception_details.context` -/
+def excCtx (d : Dump) : Option Nat :=
+  match d.exc with
+  | some (_, c) => readCtx d c
+  | none => none
+
+/-- `"…".parse::<u32>()`: optional `+`, at least one ASCII digit, value ≤ u32::MAX -/
+def parseU32 (s : String) : Option Nat :=
+  let cs := s.toList
+  let ds := match cs with
+    | '+' :: rest => rest
+    | _ => cs
+  if ds.isEmpty then none
+  else if ds.all Char.isDigit then
+    let v := ds.foldl (fun a c => a * 10 + (c.toNat - '0'.toNat)) 0
+    if v ≤ U32MAX then some v else none
+  else none
+
+/-- `LinuxProcStatus::from`: first `Pid` entry, unparsable ⇒ 0; no entry ⇒ 0 -/
+def statusPid (kv : List (String × String)) : Nat :=
+  match kv.find? (fun e => e.1 == "Pid") with
+  | some e => (parseU32 e.2).getD 0
+  | none => 0
+
+/-- `process_id`: misc-info (flag `MINIDUMP_MISC1_PROCESS_ID`) if the stream exists, else Linux status -/
+def processId (d : Dump) : Option Nat :=
+  match d.misc with
+  | some m => if m.flags % 2 = 1 then some m.pid else none
+  | none => d.status.map statusPid
+
+/-- `process_create_time`: misc-info only (flag `MINIDUMP_MISC1_PROCESS_TIMES`), seconds since epoch -/
+def createTime (d : Dump) : Option Nat :=
+  match d.misc with
+  | some m => if (m.flags / 2) % 2 = 1 then some m.ctime else none
+  | none => none
+
+/-- module / unloaded-module size test shared by both readers -/
+def badSize (m : Mod) : Bool := m.size = 0 || m.size > U64MAX - m.base
+
+/-- `MinidumpModuleList::read`: bad entries are dropped -/
+def loadedModules (d : Dump) : List Mod := d.modules.filter (fun m => !badSize m)
+
+/-- `MinidumpUnloadedModuleList::read`: one bad entry fails the stream ⇒ empty list -/
+def unloadedModules (d : Dump) : List Mod :=
+  if d.unloaded.any badSize then [] else d.unloaded
+
+/-- `modules.module_at_address(a).is_some()` through C08's `into_rangemap_safe` + `RangeMap::get`.
+    `none` = the `unwrap` in `into_rangemap_safe` fired (C08 proves it cannot). -/
+def inLoadedModule (ms : List Mod) (a : Nat) : Option Bool :=
+  match RangeMap.safe (ms.zipIdx.map fun (m, i) => (RangeMap.mkRange m.base m.size, i)) with
+  | .ok t => some (RangeMap.get t a).isSome
+  | .panic _ => none
+
+/-- `frame.instruction - unloaded.raw.base_of_image` for every module of
+    `unloaded_modules.modules_at_address(frame.instruction)`; overflow checks are on, so a module
+    that did not cover the address would be a panic (`none`). -/
+def offsetsAt (ums : List Mod) (a : Nat) : Option (List (String × Nat)) :=
+  let table := RangeMap.unloadedFrom (ums.map fun m => RangeMap.mkRange m.base m.size)
+  (RangeMap.unloadedAt table a).mapM fun i =>
+    match ums[i]? with
+    | some m => if m.base ≤ a then some (m.name, a - m.base) else none
+    | none => none
+
+/-- `frame.unloaded_modules` of a frame at `a`: only when no loaded module covers it -/
+def frameUnloaded (ms ums : List Mod) (a : Nat) : Option (List (String × Nat)) :=
+  match inLoadedModule ms a with
+  | none => none
+  | some true => some []
+  | some false => offsetsAt ums a
+
+/-! ### into_process_state -/
+
+/-- this thread is the dump-writer thread (`self.dump_thread_id == Some(id)`) -/
+def isDumpThread (d : Dump) (t : Thread) : Bool := dumpThreadId d.breakpad == some t.id
+
+/-- the closure marks this thread as requesting: not skipped, and its id is the requesting id -/
+def isRequesting (d : Dump) (t : Thread) : Bool :=
+  !isDumpThread d t && requestingId d == some t.id
+
+/-- the context the walk of this thread starts from -/
+def startCtx (d : Dump) (t : Thread) : Option Nat :=
+  if isDumpThread d t then none
+  else if isRequesting d t then (excCtx d).orElse (fun _ => readCtx d t.ctx)
+  else readCtx d t.ctx
+
+/-- the `CallStack` built for one thread (before unloaded-module attribution) -/
+def stackOf (d : Dump) (t : Thread) : Stack :=
+  if isDumpThread d t then
+    -- `CallStack::with_info(id, DumpThreadSkipped)` + its name from the names stream: no frames
+    { id := t.id, name := nameOf d.names t.id, info := .dumpThreadSkipped, frame0 := none, unloaded := [] }
+  else
+    match startCtx d t with
+    | some ip => { id := t.id, name := nameOf d.names t.id, info := .ok, frame0 := some ip, unloaded := [] }
+    | none => { id := t.id, name := nameOf d.names t.id, info := .missingContext, frame0 := none, unloaded := [] }
+
+/-- the `.enumerate().map(..)` over the thread list with its side effect on `requesting_thread`:
+    returns the call stacks and the final value of `requesting_thread` (last assignment wins). -/
+def loop (d : Dump) : Nat → List Thread → Option Nat → List Stack × Option Nat
+  | _, [], req => ([], req)
+  | i, t :: ts, req =>
+    let r := loop d (i + 1) ts (if isRequesting d t then some i else req)
+    (stackOf d t :: r.1, r.2)
+
+/-- attach `frame.unloaded_modules` to the context frame; `none` = panic -/
+def attachUnloaded (ms ums : List Mod) : List Stack → Option (List Stack)
+  | [] => some []
+  | s :: rest =>
+    match s.frame0 with
+    | none => (attachUnloaded ms ums rest).map (s :: ·)
+    | some a =>
+      match frameUnloaded ms ums a, attachUnloaded ms ums rest with
+      | some u, some r => some ({ s with unloaded := u } :: r)
+      | _, _ => none
+
+inductive Result where
+  | missingThreadList
+  | panic
+  | state (s : State)
+  deriving Repr
+
+/-- `process_minidump` as far as C14 observes it. -/
+def index (d : Dump) : Result :=
+  match d.threads with
+  | none => .missingThreadList
+  | some ts =>
+    let os := Os.ofPlatformId d.platformId
+    let cpu := Cpu.ofArch d.arch
+    let (stacks, req) := loop d 0 ts none
+    let ms := loadedModules d
+    let ums := unloadedModules d
+    match attachUnloaded ms ums stacks with
+    | none => .panic
+    | some stacks =>
+      .state {
+        stacks := stacks
+        requesting := req
+        exc := d.exc.map fun (e, _) => (Reason.fromException e os cpu, Reason.crashAddress e os cpu)
+        pid := processId d
+        ctime := createTime d
+        time := d.timestamp
+        modules := ms
+        unloaded := ums }
+
+/-! ### line protocol
+  request (fields `key=value`, in this order, numbers decimal):
+    `index ts=<u32> os=<platform id> cpu=<arch> th=<T> nm=<N> bp=<B> ex=<E> mi=<M> st=<S> mo=<L> um=<L>`
+    T = `-` (no thread list) | `.` (empty) | `id:ctx,..`   ctx = `r<ip>` | `u<mode>`
+    N = `-`/`.` | `id:name,..`  name = `!` for an unreadable string
+    B = `-` | `validity:dump:req`
+    E = `-` | `x` (unreadable stream) | `tid:code:flags:addr:np:p0:p1:p2:ctx`
+    M = `-` | `x` | `flags:pid:ctime:version`
+    S = `-` | `.` | `Key~value,..`
+    L = `.` | `base:size:name,..`
+  answer:
+    `threads:id/name/info/ip/name=off+off&..;.. req:i exc:Reason addr:n pid:n ctime:n time:n mods:b:s:n,.. umods:..`
+    | `err:MissingThreadList` | `PANIC`
+-/
+namespace Parse
+open Proto
+
+def kv (tok : String) (key : String) : Option String :=
+  if tok.startsWith (key ++ "=") then some (tok.drop (key.length + 1)).toString else none
+
+def ctx (s : String) : Option (Option Nat) :=
+  if s.startsWith "r" then (optNat (s.drop 1).toString).map some
+  else if s.startsWith "u" then (optNat (s.drop 1).toString).map fun _ => none
+  else none
+
+def listOf {α} (s : String) (item : String → Option α) : Option (List α) :=
+  if s == "." then some [] else (s.splitOn ",").mapM item
+
+def thread (s : String) : Option Thread :=
+  match s.splitOn ":" with
+  | [a, c] => do let id ← optNat a; let c ← ctx c; pure ⟨id, c⟩
+  | _ => none
+
+def nameEntry (s : String) : Option (Nat × Option String) :=
+  match s.splitOn ":" with
+  | [a, n] => do
+    let id ← optNat a
+    if n == "!" then pure (id, none) else if n.isEmpty then none else pure (id, some n)
+  | _ => none
+
+def modEntry (s : String) : Option Mod :=
+  match s.splitOn ":" with
+  | [b, z, n] => do let b ← optNat b; let z ← optNat z; if n.isEmpty then none else pure ⟨b, z, n⟩
+  | _ => none
+
+def statusEntry (s : String) : Option (String × String) :=
+  match s.splitOn "~" with
+  | [k, v] => if k.isEmpty then none else some (k, v)
+  | _ => none
+
+def exc (s : String) : Option (Option (Exc × Option Nat)) :=
+  if s == "-" || s == "x" then some none else
+  match s.splitOn ":" with
+  | [tid, code, flags, addr, np, p0, p1, p2, c] => do
+    let tid ← optNat tid; let code ← optNat code; let flags ← optNat flags; let addr ← optNat addr
+    let np ← optNat np; let p0 ← optNat p0; let p1 ← optNat p1; let p2 ← optNat p2; let c ← ctx c
+    pure (some (⟨tid, code, flags, addr, np, p0, p1, p2⟩, c))
+  | _ => none
+
+def breakpad (s : String) : Option (Option Breakpad) :=
+  if s == "-" then some none else
+  match (s.splitOn ":").map optNat with
+  | [some v, some dmp, some r] => some (some ⟨v, dmp, r⟩)
+  | _ => none
+
+def misc (s : String) : Option (Option Misc) :=
+  if s == "-" || s == "x" then some none else
+  match (s.splitOn ":").map optNat with
+  | [some f, some p, some c, some _ver] => some (some ⟨f, p, c⟩)
+  | _ => none
+
+def dump (args : List String) : Option Dump :=
+  match args with
+  | [ts, os, cpu, th, nm, bp, ex, mi, st, mo, um] => do
+    let ts ← (kv ts "ts").bind optNat
+    let os ← (kv os "os").bind optNat
+    let cpu ← (kv cpu "cpu").bind optNat
+    let th ← kv th "th"
+    let threads ← if th == "-" then pure none else (listOf th thread).map some
+    let nm ← kv nm "nm"
+    let names ← if nm == "-" then pure [] else listOf nm nameEntry
+    let bp ← (kv bp "bp").bind breakpad
+    let ex ← (kv ex "ex").bind exc
+    let mi ← (kv mi "mi").bind misc
+    let st ← kv st "st"
+    let status ← if st == "-" then pure none else (listOf st statusEntry).map some
+    let mo ← (kv mo "mo").bind (listOf · modEntry)
+    let um ← (kv um "um").bind (listOf · modEntry)
+    pure { platformId := os, arch := cpu, timestamp := ts, threads := threads, names := names,
+           breakpad := bp, exc := ex, misc := mi, status := status, modules := mo, unloaded := um }
+  | _ => none
+
+end Parse
+
+def optStr (o : Option Nat) : String := match o with | some n => toString n | none => "-"
+
+/-- canonical rendering of `frame.unloaded_modules` (a `BTreeMap<String, BTreeSet<u64>>`):
+    distinct (name, offset) pairs ordered by name, then offset -/
+def renderOffsets (u : List (String × Nat)) : String :=
+  let sorted := (u.eraseDups).mergeSort fun a b => a.1 < b.1 || (a.1 == b.1 && a.2 ≤ b.2)
+  let names := (sorted.map (·.1)).eraseDups
+  "&".intercalate (names.map fun n =>
+    n ++ "=" ++ "+".intercalate ((sorted.filter (·.1 == n)).map fun e => toString e.2))
+
+def renderStack (s : Stack) : String :=
+  let info := match s.info with
+    | .ok => "ok" | .missingContext => "missing" | .dumpThreadSkipped => "skipped"
+  s!"{s.id}/{s.name.getD "-"}/{info}/{optStr s.frame0}/{renderOffsets s.unloaded}"
+
+def renderMods (ms : List Mod) : String :=
+  ",".intercalate (ms.map fun m => s!"{m.base}:{m.size}:{m.name}")
+
+def render : Result → String
+  | .missingThreadList => "err:MissingThreadList"
+  | .panic => "PANIC"
+  | .state s =>
+    let exc := match s.exc with
+      | some (r, a) => s!"exc:{r.render} addr:{a}"
+      | none => "exc:- addr:-"
+    s!"threads:{";".intercalate (s.stacks.map renderStack)} req:{optStr s.requesting} {exc} " ++
+    s!"pid:{optStr s.pid} ctime:{optStr s.ctime} time:{s.time} mods:{renderMods s.modules} umods:{renderMods s.unloaded}"
+
+/-- line-protocol entry point of this model (engine: index) -/
+def handle (_engine : String) (args : List String) : String :=
+  match args with
+  | ["table", name] =>
+    -- the translated table itself, for validation against the real `from_u32`
+    match Gen.Enums.all.find? (·.1 == name) with
+    | some (_, t) => ",".intercalate (t.map fun e => s!"{e.1}={e.2}")
+    | none => "bad-op"
+  | _ =>
+    match Parse.dump args with
+    | some d => render (index d)
+    | none => "bad-op"
 
 end MdModel.Index
